@@ -26,7 +26,7 @@ CHECKS = [
              "known finding C12-H excluded by its witness class",
      "not_covered": ["that the optimiser honours its bounds", "base load within the observed usage range beyond the quantile box", "behaviour of the fit on data"],
      },
-    {"id": "C16", "level": "proof", "modules": ["contracts.C16_metrics"], "bounded": ["bounded.C16_metrics"],
+    {"id": "C16", "level": "proof", "modules": ["contracts.C16_metrics"], "bounded": ["bounded.C16_metrics", "bounded.C16_fitted"],
      "technique": "deductive verification: sidecar contracts on the real source, VCs by symbolic execution (pyvc) over abstract aggregates, z3",
      "text": "Every computed field of BaselineMetrics / ReportingMetrics equals the textbook formula over abstract aggregates of the "
              "finite rows (for all n, parameter counts and aggregate values), _safe_divide and both poor-fit gates are verified in iff form.",
@@ -44,7 +44,7 @@ CHECKS = [
              "and settings classes are opaque; end-to-end behaviour of fit on data is not decided here",
      "not_covered": ["that fit returns normally on every well-formed dataset (bounded part of C01/C10 exercises real fits)"],
      },
-    {"id": "C01", "level": "proof", "modules": ["contracts.C01_roundtrip"], "bounded": ["bounded.C01_roundtrip"],
+    {"id": "C01", "level": "proof", "modules": ["contracts.C01_roundtrip"], "bounded": ["flow.C01_restore", "bounded.C01_roundtrip"],
      "technique": "deductive verification of the prediction formula and coefficient packing (pyvc, z3) + bounded real round trips",
      "text": "Proof: for every admissible stored coefficient vector of all seven shapes and every real temperature the real "
              "_predict_submodel equals the documented piecewise formula evaluated from the JSON parameters alone; to_np_array and "
